@@ -14,8 +14,14 @@ import tempfile
 VERIF = os.path.dirname(os.path.dirname(os.path.abspath(__file__)))
 
 MODES = {
-    'C02': ['bnd_tables'],
-    'C03': ['bnd_tables'],
+    'C01': ['bnd_doc', 'bnd_tables'],
+    'C02': ['bnd_tables', 'bnd_doc'],
+    'C03': ['bnd_tables', 'bnd_doc'],
+    'C07': ['bnd_c07'],
+    'C11': ['bnd_doc'],
+    'C14': ['bnd_c14'],
+    'C16': ['bnd_doc'],
+    'C20': ['bnd_c20'],
     'C05': ['bnd_tables'],
     'C06': ['bnd_tables'],
     'C08': ['bnd_c08'],
@@ -24,6 +30,11 @@ MODES = {
     'C18': ['bnd_c18'],
 }
 STANDS_FOR = {
+    'bnd_doc': 'the whole pipeline on table-free documents (parse, process_dom_node, do_render_node and its closures, tree_map_reduce, render_tree_to_string): '
+               'no panic, width bound, overflow option, and with the trivial decorator the document text preserved in order',
+    'bnd_c07': 'do_render_node Ol/Ul arms with their closures, calc_ol_prefix_size, append_subrender as wholes: numbering, common marker width, indentation',
+    'bnd_c14': 'process_dom_node id handling, insert_child, record_frag_start and the add_line / flush_wrapping hand-over across blocks and table borders',
+    'bnd_c20': 'the selector parser (src/css/parser.rs), rule application in computed_style and do_matches together, against an independent reference matcher',
     'bnd_tables': 'render_table_tree, RenderTable::new, tbody_to_render_tree, table_to_render_tree, render_table_row, append_columns_with_borders / append_vert_row as wholes: '
                   'width bound, cell text preserved, box drawing consistent for regular tables (the slices of these functions under contract are proved separately)',
     'bnd_c08': 'render_tree_to_string (finalise glue), do_render_node Link arm, process_dom_node (links, empty-link removal), tree_map_reduce: '
